@@ -247,25 +247,33 @@ def _nonempty_test(c, name):
     return False
 
 
-def _forwards_one_buffer(v):
+def _forwards_one_buffer(v, method="<anstream::strip::StripStream<S> as std::io::Write>::write", free_fn=M + "write"):
     body = v["hir"]
     R = hir.Resolver(body)
-    writes = [n for n in hir.walk(body) if hir.is_call(n, "<anstream::strip::StripStream<S> as std::io::Write>::write")]
+    # the stream's own `write` method, or the module's free `write(raw, state, buf)` it is made of
+    writes = [n for n in hir.walk(body) if hir.is_call(n, method) or (n.get("k") == "call" and hir.callee(n) == free_fn)]
     if not writes:
         return False, "no self.write call"
     results = _result_nodes(body)
+    buf_arg = {}
     for w_ in writes:
         if not any(w_ is r for r in results):
             return False, f"`{hirpp.expr(w_)[:50]}` is not returned as is (a second write could follow)"
-        if not hir.is_local(w_["args"][0], "self"):
+        if hir.callee(w_) == free_fn:
+            if len(w_["args"]) != 3 or hir.place_str(hir.peel(w_["args"][1])) != "self.state":
+                return False, "the free write function is not given the stream's own state"
+            buf_arg[id(w_)] = w_["args"][2]
+        elif not hir.is_local(w_["args"][0], "self"):
             return False, "write on something else than self"
+        else:
+            buf_arg[id(w_)] = w_["args"][1]
     others = [n for n in hir.walk(body) if n.get("k") == "call" and hir.callee_decl(n).startswith("std::io::Write::") and not any(n is w_ for w_ in writes)]
     if others:
         return False, f"other writer calls {[hir.callee(o) for o in others]}"
     loops = [l for l in (hir.for_loop(n) for n in hir.walk(body) if n.get("k") == "match" and n.get("src") == "ForLoopDesugar") if l]
     kinds = []
     for w_ in writes:
-        a = hir.peel(R.res(hir.peel(w_["args"][1])))
+        a = hir.peel(R.res(hir.peel(buf_arg[id(w_)])))
         # an empty slice
         arr = [x for x in hir.walk(a) if x.get("k") == "array"]
         if (a.get("k") == "array" and not a["es"]) or (a.get("k") == "index" and arr and not arr[0]["es"]):
